@@ -113,6 +113,8 @@ def run(ck):
     ck.trusted += ["tools/extract/c07_tables.py (regex over cppBison.yxx and the operator switch of CPPExpression::evaluate; compares code text by FNV-1a-64)",
                    "bison's LALR conflict resolution behaves as the declared precedence/associativity table says",
                    "g++ 12 as the reference for the value of a constant expression"]
+    ck.trusted += ["Model/Literal.lean, Model/EnumVal.lean, Model/CharLit.lean are hand-written models of get_number / CPPEnumType::add_element / scan_escape_sequence+scan_quoted; "
+                   "each is tied to the code only by its correspondence stream (literal / enumerator / character-literal values read from real databases)"]
     bdir = iglib.build_repo("std")
     lay = dbgen.Layouts()
     wd = workdir(ck)
